@@ -31,7 +31,7 @@ Definition run_mock7 (lookup gcps : Z) (hasgc : bool) (regs : list (bytes * Z)) 
   | _ => out_panic
   end.
 
-(* x86 walk_stack step from a context frame (no grand-callee); module base 0x40000000 *)
+(* x86 walk_stack step from a context frame (no frame below it); module base 0x40000000 *)
 Definition run_real7 (ctx : list (bytes * Z)) (valid : option (list bytes))
                      (stackbase : Z) (stack : bytes) (recs : list rec) : c06_out :=
   let a := x86 in
@@ -39,7 +39,8 @@ Definition run_real7 (ctx : list (bytes * Z)) (valid : option (list bytes))
   let sp := match assoc (a_sp a) ctx with Some v => v | None => 0 end in
   let sp_valid := match valid with None => true | Some which => mem_b (a_sp a) which end in
   if negb sp_valid || (ip <? 1073741824) || (1073741824 + 65536 <=? ip) then out_none else
-  let E := mkEnv (real_callee a ctx valid) (mem_read 4 stackbase stack) (ip - 1073741824) false 0 in
+  (* context frame: the frame list is just the callee; has_grand_callee / parameter size derived as in front-end F *)
+  let E := frames_env (real_callee a ctx valid) (mem_read 4 stackbase stack) (ip - 1073741824) [] (mkSF None) in
   match walk_frame (real_ops a) Debug E (build_sym recs (mkSym [] [] None)) (real_init a ctx valid) with
   | Ret (Some s) =>
       match post_real 0 a sp s with
@@ -70,7 +71,7 @@ Definition run_real7_text (ctx : list (bytes * Z)) (valid : option (list bytes))
   let sp := match assoc (a_sp a) ctx with Some v => v | None => 0 end in
   let sp_valid := match valid with None => true | Some which => mem_b (a_sp a) which end in
   if negb sp_valid || (ip <? 1073741824) || (1073741824 + 65536 <=? ip) then out_none else
-  let E := mkEnv (real_callee a ctx valid) (mem_read 4 stackbase stack) (ip - 1073741824) false 0 in
+  let E := frames_env (real_callee a ctx valid) (mem_read 4 stackbase stack) (ip - 1073741824) [] (mkSF None) in
   match walk_frame_text (real_ops a) Debug E (map C09.Grammar.to_rle lines) (real_init a ctx valid) with
   | Ret (Some (Some s)) =>
       match post_real 0 a sp s with
